@@ -69,7 +69,7 @@ structure FGate where
   src : Option Nat := none
 deriving DecidableEq, Repr
 
-structure Variant where
+structure FVariant where
   keepMarkers : Bool := true
   keepCond : Bool := true
   exactStr : Bool := true
@@ -152,7 +152,7 @@ def normBasis (exact : Bool) : BasisSpec → BasisSpec
   | .list bs => .list bs
 
 /-- `resolve_gates` on gate objects with all fields -/
-def resolveF (T : Tables) (L : LabTables) (v : Variant) (basis : BasisSpec) (fs : List FGate) :
+def resolveF (T : Tables) (L : LabTables) (v : FVariant) (basis : BasisSpec) (fs : List FGate) :
     Except Err (List FGate) :=
   match splitBasis (normBasis v.exactStr basis) with
   | .error e => .error e
@@ -174,7 +174,7 @@ def resolveF (T : Tables) (L : LabTables) (v : Variant) (basis : BasisSpec) (fs 
 /-! ## the whole call: measurements are refused before anything else -/
 
 /-- an entry of `QubitCircuit.gates` -/
-inductive Item
+inductive CircItem
   | gate (g : Gate) (lab : Lab) (cond : Option Cond)
   | meas
 deriving DecidableEq, Repr
@@ -185,20 +185,20 @@ inductive ErrC
   | res (e : Err)
 deriving DecidableEq, Repr
 
-def Item.isMeas : Item → Bool
+def CircItem.isMeas : CircItem → Bool
   | .meas => true
   | _ => false
 
 /-- the gate objects of a measurement-free circuit, numbered -/
-def inputs : List Item → List FGate
+def inputs : List CircItem → List FGate
   | items => items.zipIdx.filterMap fun p =>
     match p.1 with
     | .gate g l c => some ⟨g, l, c, some p.2⟩
     | .meas => none
 
-def resolveC (T : Tables) (L : LabTables) (v : Variant) (basis : BasisSpec) (items : List Item) :
+def resolveC (T : Tables) (L : LabTables) (v : FVariant) (basis : BasisSpec) (items : List CircItem) :
     Except ErrC (List FGate) :=
-  if items.any Item.isMeas then .error .measurement
+  if items.any CircItem.isMeas then .error .measurement
   else match resolveF T L v basis (inputs items) with
     | .ok out => .ok out
     | .error e => .error (.res e)
@@ -217,6 +217,11 @@ def FGate.active (σ : Nat → Bool) (f : FGate) : Bool :=
 
 /-- the gates the simulator executes for the classical bits `σ` -/
 def executed (σ : Nat → Bool) (fs : List FGate) : List FGate := fs.filter (FGate.active σ)
+
+/-- what the constructors of the gate classes RX RY RZ X Y Z enforce (`SingleQubitGate.__init__`): the qubit
+is given as `targets`, there are no `controls`.  `resolve_gates` rebuilds these gates from `gate.targets`. -/
+def buildable (g : Gate) : Bool :=
+  !([GName.RX, .RY, .RZ, .X, .Y, .Z].contains g.name) || g.controls.isEmpty
 
 /-- a label `kπ/m` says what the angle is -/
 def labTrue (f : FGate) : Bool :=
